@@ -29,6 +29,10 @@ pub mod managed;
 #[cfg_attr(docsrs, doc(cfg(feature = "unmanaged")))]
 pub mod unmanaged;
 
+#[cfg(feature = "verif_hooks")]
+#[allow(missing_docs, unreachable_pub)]
+pub mod verif;
+
 pub use deadpool_runtime::{Runtime, SpawnBlockingError};
 
 /// The current pool status.
